@@ -281,7 +281,9 @@ def make_fakes(sched):
         def wait(self, timeout=None):
             sched.yield_point('Event.wait')
             if not self.flag:
+                sched.log('parked')
                 sched.block(lambda: self.flag, 'Event.wait')
+                sched.log('unparked')
             return True
 
     class FThread:
